@@ -25,6 +25,8 @@ B = {
     "B2": "#if defined(P1) && defined(P3)\nint p13;\n#elif defined(P2)\nint p2;\n#endif\n/* c */\n\nint z; // t\n",
     "B3": '#include "inc/common.h"\n#ifdef P3\n#include "d/e/deep.h"\n#endif\nint m;\n',
 }
+# a file of 999 counted lines: with any other file the totals cross the 999 / 1000 boundary where cbi-tree starts to abbreviate ("1.0k")
+B["BIG"] = "".join(f"int v{i};\n" for i in range(996)) + "#ifdef P1\nint p1;\n#endif\n"
 H = {"H0": "int c;\n", "H1": "#pragma once\n#ifdef P1\nint hc1;\n#endif\nint hc;\n"}
 DEEP = "int deep;\n#ifndef P2\nint nd;\n#endif\n"
 PLAT = {
@@ -50,7 +52,19 @@ def universe(tier):
         cases += [(pick, ps) for ps in psets]
     else:
         cases = [(cb, ps) for cb in cbs for ps in psets]
+    cases += [(cb, ps) for cb in (("BIG", "B0", "H0", "none", False), ("BIG", "B1", "H1", "file+dir", True)) for ps in (["pA"], ["pA", "pB"], names)]
     return cases
+
+
+def _hr(x):
+    """SLOC column of cbi-tree: plain up to 3 digits, then one decimal with k / M / G"""
+    d = len(str(x))
+    if d <= 3:
+        return str(x)
+    for lim, div, suf in ((6, 10 ** 3, "k"), (9, 10 ** 6, "M"), (12, 10 ** 9, "G")):
+        if d <= lim:
+            return f"{x / div:.1f}{suf}"
+    return "******"
 
 
 def build(root, cb):
@@ -263,7 +277,7 @@ def _check_tree(root, nodes, att, phys, exp_sm, allp, pruned):
         tot = sum(sm.values())
         cov = c07.r_cov(sm, set(tree_platforms)) if tree_platforms else c07.r_cov(sm)
         avg = c07.r_avg(sm, set(tree_platforms)) if tree_platforms else c07.r_avg(sm)
-        return ps, str(tot), cov, avg
+        return ps, _hr(tot), cov, avg
 
     for p, n in by_path.items():
         rel = "/".join(p)
